@@ -323,6 +323,27 @@ type c18Shadow struct {
 	ID string `json:"id"` // shallower field wins in encoding/json
 }
 
+type c18ShadowLast struct {
+	ID string `json:"id"` // the same, with the embedded struct declared after the field that shadows it
+	c18Base
+}
+type c18Inner2 struct {
+	c18Base
+	Deep bool `json:"deep"`
+}
+type c18ShadowDeep struct {
+	Kind int `json:"kind"` // shadows a field two levels down
+	c18Inner2
+}
+
+// a named string whose name ends in Ref (not a struct: no Ref / Value fields to look for)
+type c18UserRef string
+type c18Holder struct {
+	User  c18UserRef   `json:"user"`
+	Users []c18UserRef `json:"users"`
+	Opt   *c18UserRef  `json:"opt,omitempty"`
+}
+
 // slices whose element type is a named uint8: encoding/json writes them as base64 text, like []byte
 type c18Color uint8
 type c18Palette struct {
@@ -413,6 +434,15 @@ func c18Fixed(name string) (any, []any) {
 		return c18StringOpt{}, []any{c18StringOpt{N: 5, B: true, F: 1.5, S: "x"}}
 	case "shadowed":
 		return c18Shadow{}, []any{c18Shadow{c18Base: c18Base{ID: 1}, ID: "one"}}
+	case "shadowed-embedded-last":
+		return c18ShadowLast{}, []any{c18ShadowLast{c18Base: c18Base{ID: 1, Kind: "k"}, ID: "one"}, c18ShadowLast{}}
+	case "shadowed-two-levels":
+		return c18ShadowDeep{}, []any{c18ShadowDeep{Kind: 3, c18Inner2: c18Inner2{c18Base: c18Base{ID: 1, Kind: "k"}, Deep: true}}}
+	case "named-string-ending-in-ref":
+		u := c18UserRef("u")
+		return c18Holder{}, []any{c18Holder{User: "a", Users: []c18UserRef{"b", ""}, Opt: &u}, c18Holder{Users: []c18UserRef{}}}
+	case "named-string-ending-in-ref-root":
+		return c18UserRef(""), []any{c18UserRef("a"), c18UserRef("")}
 	case "named-byte-slices":
 		three := []c18Color{1, 2, 3}
 		return c18Palette{}, []any{c18Palette{Colors: three, ByName: map[string][]c18Color{"k": {255, 0}, "e": {}}, Opt: &three, Grid: [][]c18Color{{7}, {}}, Plain: []byte("hi")},
@@ -423,7 +453,7 @@ func c18Fixed(name string) (any, []any) {
 	return nil, nil
 }
 
-var c18FixedNames = []string{"recursive-mutual-pointers", "recursive-mutual-pointers-2", "recursive-slice-root", "recursive-slice-field", "recursive-plain", "recursive-ptrptr", "recursive-containers", "recursive-mutual", "recursive", "embedded", "embedded-pointer", "string-option", "shadowed", "named-byte-slices", "named-byte-slice-root"}
+var c18FixedNames = []string{"recursive-mutual-pointers", "recursive-mutual-pointers-2", "recursive-slice-root", "recursive-slice-field", "recursive-plain", "recursive-ptrptr", "recursive-containers", "recursive-mutual", "recursive", "embedded", "embedded-pointer", "string-option", "shadowed", "shadowed-embedded-last", "shadowed-two-levels", "named-string-ending-in-ref", "named-string-ending-in-ref-root", "named-byte-slices", "named-byte-slice-root"}
 
 func runC18(c *C18Case) (C18Obs, string) {
 	var o C18Obs
